@@ -36,7 +36,8 @@ def accFull (s : Sources) : String :=
   else if globalValue s ≠ "" then globalValue s
   else s.builtin
 
-/-- `BaseComponent.GetAttribute`: element, mj-class, then `BaseComponent.GetDefaultAttribute` (always "") -/
+/-- a reduced accessor of older code (no longer used by `BaseComponent.GetAttribute`, which consults mj-attributes now):
+    element, mj-class, nothing else -/
 def accNoGlobal (s : Sources) : String :=
   if s.own ≠ "" then s.own else classValue s.classes
 
@@ -52,6 +53,21 @@ theorem accFull_eq_winner (s : Sources) : accFull s = winner s := by
       · simp [h1, h2, h3, List.find?]
     · simp [h1, h2, List.find?]
   · simp [h1, List.find?]
+
+/-- `BaseComponent.GetWrittenAttribute`: everything the author can write (element, mj-class, mj-attributes); the caller
+    falls back to the built-in default itself -/
+def accWritten (s : Sources) : String :=
+  if s.own ≠ "" then s.own
+  else if classValue s.classes ≠ "" then classValue s.classes
+  else globalValue s
+
+/-- a written-attribute read followed by the caller's fall-back to the built-in default is the full resolution -/
+theorem accWritten_then_default (s : Sources) :
+    (if accWritten s ≠ "" then accWritten s else s.builtin) = winner s := by
+  rw [← accFull_eq_winner]
+  unfold accWritten accFull
+  by_cases h1 : s.own = "" <;> by_cases h2 : classValue s.classes = "" <;> by_cases h3 : globalValue s = "" <;>
+    simp [h1, h2, h3]
 
 /-- the reduced accessors agree with the Spec exactly when the sources they skip are silent -/
 theorem accNoGlobal_eq_winner (s : Sources) (h : globalValue s = "" ∧ s.builtin = "") : accNoGlobal s = winner s := by
